@@ -251,6 +251,14 @@ def step (line : String) : String :=
       let r := Neg.accept ⟨scp, ts⟩ cs
       s!"{";".intercalate (r.1.map fun a => s!"{a.id}:{a.result}:{hx a.ts}")} | {";".intercalate (r.2.map fun e => s!"{e.1}:{hx e.2.1}:{hx e.2.2}")}"
     | _, _, _ => "bad-op"
+  | "agree" :: scp :: ts :: ctxs =>
+    -- both ends: the acceptor answers the request, the requester processes the answer; the requester's table by id
+    match parseUids scp, parseUids ts, ctxs.mapM parsePcRq with
+    | some scp, some ts, some cs =>
+      match Neg.processAc (cs.map fun c => (c.id, c.abs)) (Neg.accept ⟨scp, ts⟩ cs).1 {} with
+      | some u => ";".intercalate ((u.byId.mergeSort (fun a b => a.1 ≤ b.1)).map fun e => s!"{e.1}:{hx e.2.1}:{hx e.2.2}")
+      | none => "keyerror"
+    | _, _, _ => "bad-op"
   | "add-calls" :: calls =>
     match calls.mapM parseUids with
     | some cs => ";".intercalate ((Neg.addCalls cs).map fun e => s!"{e.1}:{hx e.2}")
